@@ -45,3 +45,27 @@
     pub(crate) fn lzma2_write_chunk_stub<W: Write>(_s: &mut LZMA2Writer<W>) -> crate::Result<()> { Ok(()) }
     pub(crate) fn lzma2_start_independent_stub<W: Write>(_s: &mut LZMA2Writer<W>) -> crate::Result<()> { Ok(()) }
     pub(crate) fn lz_noop_stub(_s: &mut crate::enc::lz::LZEncoder) {}
+
+    /// C17.enc: LZMAOptions::get_memory_usage (KiB) for every dictionary size 4 KiB..1 GiB, both modes, both match
+    /// finders: no overflow; estimate >= window buffer + hash tables + chain/tree + optimum table (the allocations of
+    /// LZEncoder::new, Hash234::new, HC4/BT4::new, NormalEncoderMode::new) and <= that sum + 1/8 + 512 KiB.
+    #[kani::proof]
+    #[kani::unwind(2)]
+    fn c17_enc_estimator() {
+        let d: u32 = vk::any();
+        vk::assume(d >= 4096 && d <= 1 << 30);
+        let fast: bool = vk::any();
+        let hc: bool = vk::any();
+        let o = LZMAOptions { dict_size: d, lc: 3, lp: 0, pb: 2, mode: if fast { EncodeMode::Fast } else { EncodeMode::Normal },
+            nice_len: 64, mf: if hc { MFType::HC4 } else { MFType::BT4 }, depth_limit: 0, preset_dict: None };
+        let kib = o.get_memory_usage() as u64;
+        let extra_before = core::cmp::max(get_extra_size_before(d), if fast { 1 } else { 4096 });
+        let extra_after = if fast { 272 } else { 4096 };
+        let buf = crate::vk::spec_buf_size(d, extra_before, extra_after, 273);
+        let tables = 4 * ((1u64 << 10) + (1u64 << 16) + crate::vk::spec_hash4_size(d) as u64)
+            + if hc { 4 * (d as u64 + 1) } else { 8 * (d as u64 + 1) };
+        let opts = if fast { 0 } else { 4096u64 * 64 };
+        let bytes = buf + tables + opts;
+        assert!(kib * 1024 >= bytes);
+        assert!(kib * 1024 <= bytes + bytes / 8 + 512 * 1024);
+    }
